@@ -1,7 +1,7 @@
 #!/bin/bash
 # Runs every claimed check (quick by default) and prints a one-line summary per property.
 tier=${1:-quick}
-cd /verif
+cd "$(dirname "$0")/.."
 ids=$(/venv/bin/python -c "import json;print(' '.join(c['property_id'] for c in json.load(open('MANIFEST.json'))['checks']))")
 mkdir -p build/logs
 for p in $ids; do
